@@ -284,3 +284,371 @@ Lemma so_go_from_nil : forall es, match es with e :: _ => is_lit e = false | [] 
 Proof.
   intros [|e es] H; [reflexivity|]. cbn [split_on so_go]. rewrite H. reflexivity.
 Qed.
+
+Lemma ctok_head : forall t, ctok t -> exists e es, tok_elems t = e :: es /\ is_lit e = false.
+Proof.
+  intros [|[|z|s|l]] H; cbn [tok_elems elems_piece]; try contradiction.
+  - eexists _, _. split; reflexivity.
+  - eexists _, _. split; reflexivity.
+  - destruct (dec_Z_atomtext z) as [(Hne & _) _]. destruct (dec_Z z) as [|b w]; [contradiction|].
+    eexists _, _. split; reflexivity.
+  - cbn [ctok flat_atom] in H. destruct H as [H _]. unfold quotable in H. rewrite H.
+    eexists _, _. split; reflexivity.
+Qed.
+
+(** right after a literal *)
+Lemma so_go_after_literal : forall s ts, Forall ftok ts -> sep_ok (TIt (IStr s) :: ts) = true ->
+  so_go (seg ts) true s = Ok (IStr s :: outs ts).
+Proof.
+  intros s ts Hts Hs. destruct ts as [|[|j] ts'].
+  - reflexivity.
+  - change (seg (TSp :: ts')) with (EB [SP] :: seg ts'). cbn [so_go is_lit Bool.eqb emit_run bind elem_bytes].
+    change (so_go (seg ts') false [SP]) with (so_go (seg (TSp :: ts')) false (cbytes [])).
+    rewrite (so_go_tokens (TSp :: ts') []); [reflexivity|constructor|exact Hts|].
+    cbn [app]. cbn [sep_ok] in Hs. exact Hs.
+  - cbn [sep_ok] in Hs. discriminate Hs.
+Qed.
+
+Lemma split_on_tokens : forall ts, Forall ftok ts -> sep_ok ts = true -> split_on (seg ts) = Ok (outs ts).
+Proof.
+  intros [|t ts] Hts Hs; [reflexivity|].
+  inversion Hts as [|? ? Ht Hts']; subst.
+  assert (Hchar : ctok t -> split_on (seg (t :: ts)) = Ok (outs (t :: ts))).
+  { intros Hc. destruct (ctok_head t Hc) as (e & es & E & L).
+    rewrite so_go_from_nil.
+    - apply (so_go_tokens (t :: ts) []); [constructor|exact Hts|exact Hs].
+    - change (seg (t :: ts)) with (tok_elems t ++ seg ts). rewrite E. exact L. }
+  destruct t as [|i]; [apply Hchar; exact I|].
+  destruct (is_lit_item i) eqn:L; [|apply Hchar, wf_flat_atom; assumption].
+  destruct (lit_tok_elems i Ht L) as (s & -> & E).
+  change (seg (TIt (IStr s) :: ts)) with (tok_elems (TIt (IStr s)) ++ seg ts). rewrite E.
+  cbn [app split_on is_lit elem_bytes]. now rewrite (so_go_after_literal s ts Hts' Hs).
+Qed.
+
+(** ---- collapseStrings over tokens that may be sub-lists ---- *)
+Definition nosub (e : elem) : bool := match e with ESub _ => false | _ => true end.
+
+Lemma cs_go_nosub_app : forall rec es1 es2 run, forallb nosub es1 = true ->
+  cs_go rec (es1 ++ es2) run = cs_go rec es2 (List.rev es1 ++ run).
+Proof.
+  induction es1 as [|e es1 IH]; intros es2 run H; [reflexivity|].
+  cbn [forallb] in H. apply andb_true_iff in H as [He Hes].
+  destruct e; try discriminate He; cbn [app cs_go]; rewrite (IH _ _ Hes); cbn [List.rev]; now rewrite <- app_assoc.
+Qed.
+
+Lemma map_ebyte_nosub : forall w, forallb nosub (map ebyte w) = true.
+Proof. induction w as [|b w IH]; [reflexivity|]. cbn [map forallb ebyte nosub andb]. exact IH. Qed.
+
+Lemma map_qelem_nosub : forall s, forallb nosub (map qelem s) = true.
+Proof.
+  induction s as [|b s IH]; [reflexivity|]. cbn [map forallb]. rewrite IH. unfold qelem.
+  destruct (b =? BS); [reflexivity|]. destruct (b =? DQ); reflexivity.
+Qed.
+
+Lemma ftok_nosub : forall t, ftok t -> forallb nosub (tok_elems t) = true.
+Proof.
+  intros [|i] H; [reflexivity|]. destruct i as [|z|s|l]; cbn [tok_elems elems_piece].
+  - apply map_ebyte_nosub.
+  - apply map_ebyte_nosub.
+  - destruct (needs_literal s); [reflexivity|]. cbn [forallb nosub andb]. rewrite forallb_app, map_qelem_nosub. reflexivity.
+  - contradiction.
+Qed.
+
+(** what is known about a token: a flat item with backslash-free quoting, or a sub-list on which
+    collapseStrings already gives the right answer *)
+Definition tokwf (t : tok) : Prop :=
+  match t with
+  | TSp => True
+  | TIt (IList l) => cs_elem (ESub (elems_join (map elems_piece l))) = Ok (map norm l)
+  | TIt i => wf_flat i
+  end.
+
+Lemma cs_go_tokens : forall ts pend, Forall ftok pend -> Forall tokwf ts -> sep_ok (pend ++ ts) = true ->
+  cs_go cs_elem (seg ts) (List.rev (seg pend)) = Ok (outs (pend ++ ts)).
+Proof.
+  induction ts as [|t ts IH]; intros pend Hp Hts Hs.
+  - rewrite app_nil_r in *. cbn [seg flat_map cs_go]. rewrite rev_involutive. now apply split_on_tokens.
+  - inversion Hts as [|? ? Ht Hts']; subst.
+    assert (Hflat : ftok t -> cs_go cs_elem (seg (t :: ts)) (List.rev (seg pend)) = Ok (outs (pend ++ t :: ts))).
+    { intros Hf. change (seg (t :: ts)) with (tok_elems t ++ seg ts).
+      rewrite (cs_go_nosub_app _ _ _ _ (ftok_nosub t Hf)), <- rev_app_distr.
+      assert (Es : seg pend ++ tok_elems t = seg (pend ++ [t])).
+      { rewrite seg_app. cbn [seg flat_map]. now rewrite app_nil_r. }
+      rewrite Es, (IH (pend ++ [t])).
+      - now rewrite <- app_assoc.
+      - apply Forall_app. split; [exact Hp|now constructor].
+      - exact Hts'.
+      - now rewrite <- app_assoc. }
+    destruct t as [|i]; [apply Hflat; exact I|].
+    destruct i as [|z|s|l]; try (apply Hflat; exact Ht).
+    cbn [tokwf] in Ht.
+    change (seg (TIt (IList l) :: ts)) with (ESub (elems_join (map elems_piece l)) :: seg ts).
+    cbn [cs_go]. rewrite rev_involutive.
+    destruct (sep_ok_app _ _ Hs) as [Hs1 Hs2].
+    rewrite (split_on_tokens pend Hp Hs1). cbn [bind]. rewrite Ht. cbn [bind].
+    change (@nil elem) with (List.rev (seg [])).
+    rewrite (IH [] (Forall_nil _) Hts' (sep_ok_tail _ _ Hs2)). cbn [bind app].
+    rewrite outs_app. cbn [outs flat_map tok_out norm app]. reflexivity.
+Qed.
+
+Fixpoint toks (l : list item) : list tok :=
+  match l with
+  | [] => []
+  | [i] => [TIt i]
+  | i :: r => TIt i :: TSp :: toks r
+  end.
+
+Lemma seg_toks : forall l, seg (toks l) = elems_join (map elems_piece l).
+Proof.
+  induction l as [|i l IH]; [reflexivity|]. destruct l as [|j l].
+  - cbn. now rewrite app_nil_r.
+  - change (toks (i :: j :: l)) with (TIt i :: TSp :: toks (j :: l)).
+    change (seg (TIt i :: TSp :: toks (j :: l))) with (elems_piece i ++ EB [SP] :: seg (toks (j :: l))).
+    rewrite IH. reflexivity.
+Qed.
+
+Lemma outs_toks : forall l, outs (toks l) = map norm l.
+Proof.
+  induction l as [|i l IH]; [reflexivity|]. destruct l as [|j l]; [reflexivity|].
+  change (toks (i :: j :: l)) with (TIt i :: TSp :: toks (j :: l)).
+  change (outs (TIt i :: TSp :: toks (j :: l))) with (norm i :: outs (toks (j :: l))). now rewrite IH.
+Qed.
+
+Lemma sep_ok_toks : forall l, sep_ok (toks l) = true.
+Proof.
+  induction l as [|i l IH]; [reflexivity|]. destruct l as [|j l]; [reflexivity|].
+  change (toks (i :: j :: l)) with (TIt i :: TSp :: toks (j :: l)). cbn [sep_ok]. exact IH.
+Qed.
+
+Lemma tokwf_toks : forall l, Forall (fun i => tokwf (TIt i)) l -> Forall tokwf (toks l).
+Proof.
+  induction l as [|i l IH]; intros H; [constructor|]. inversion H as [|? ? Hi Hl]; subst.
+  destruct l as [|j l]; [repeat constructor; exact Hi|].
+  change (toks (i :: j :: l)) with (TIt i :: TSp :: toks (j :: l)).
+  constructor; [exact Hi|]. constructor; [exact I|]. apply IH, Hl.
+Qed.
+
+(** ---- the guard, at every nesting depth ---- *)
+Fixpoint wf_item (i : item) : Prop :=
+  match i with
+  | INil | IInt _ => True
+  | IStr s => needs_literal s = true \/ nobs s
+  | IList l => (fix all (l : list item) : Prop := match l with [] => True | x :: r => wf_item x /\ all r end) l
+  end.
+
+Lemma wf_item_list : forall l, wf_item (IList l) <-> Forall wf_item l.
+Proof.
+  induction l as [|x l IH].
+  - split; intros _; [constructor|exact I].
+  - split; intros H.
+    + change (wf_item x /\ wf_item (IList l)) in H. destruct H as [Hx Hl].
+      constructor; [exact Hx|apply (proj1 IH); exact Hl].
+    + inversion H as [|? ? Hx Hl]; subst. change (wf_item x /\ wf_item (IList l)).
+      split; [exact Hx|apply (proj2 IH); exact Hl].
+Qed.
+
+Fixpoint item_ind' (P : item -> Prop) (HN : P INil) (HI : forall z, P (IInt z)) (HS : forall s, P (IStr s))
+  (HL : forall l, Forall P l -> P (IList l)) (i : item) {struct i} : P i :=
+  match i with
+  | INil => HN
+  | IInt z => HI z
+  | IStr s => HS s
+  | IList l => HL l ((fix go (l : list item) : Forall P l :=
+                        match l with
+                        | [] => Forall_nil P
+                        | x :: r => Forall_cons x (item_ind' P HN HI HS HL x) (go r)
+                        end) l)
+  end.
+
+Lemma item_tokwf : forall i, wf_item i -> tokwf (TIt i).
+Proof.
+  induction i as [|z|s|l IH] using item_ind'; intros H; try exact H.
+  cbn [tokwf]. apply wf_item_list in H.
+  assert (Hall : Forall (fun i => tokwf (TIt i)) l).
+  { clear -IH H. induction l as [|x l IHl]; [constructor|].
+    inversion IH as [|? ? Hx Hl]; subst. inversion H as [|? ? Wx Wl]; subst.
+    constructor; [apply Hx, Wx|apply IHl; assumption]. }
+  rewrite <- seg_toks.
+  change (cs_elem (ESub (seg (toks l)))) with (cs_go cs_elem (seg (toks l)) (List.rev (seg []))).
+  rewrite (cs_go_tokens (toks l) [] (Forall_nil _) (tokwf_toks l Hall) (sep_ok_toks l)).
+  cbn [app]. now rewrite outs_toks.
+Qed.
+
+Lemma collapse_strings_nested : forall x, Forall wf_item x ->
+  collapse_strings (elems_join (map elems_piece x)) = Ok (map norm x).
+Proof.
+  intros x H. apply wf_item_list in H. exact (item_tokwf (IList x) H).
+Qed.
+
+(** ---- the scanner on a whole serialisation (any structure, no guard needed) ---- *)
+Lemma scan_chars : forall w tp sk rest, forallb plainchar w = true ->
+  scan (mkp MNorm tp sk) (w ++ rest) = scan (mkp MNorm (List.rev (map ebyte w) ++ tp) sk) rest.
+Proof.
+  induction w as [|c w IH]; intros tp sk rest H; [reflexivity|].
+  cbn [forallb] in H. apply andb_true_iff in H as [Hc Hw].
+  destruct (plainchar_tests c Hc) as (E1 & E2 & E3 & E4).
+  cbn [app scan]. unfold pstep at 1. cbn [md]. rewrite E1, E2, E3, E4. cbn [bind top stk]; unfold push; cbn [top stk].
+  rewrite (IH _ _ _ Hw). cbn [map List.rev]. now rewrite <- app_assoc.
+Qed.
+
+Lemma scan_qbyte : forall b tp sk rest,
+  scan (mkp MQuote tp sk) (escb b ++ rest) = scan (mkp MQuote (qelem b :: tp) sk) rest.
+Proof.
+  intros b tp sk rest. unfold escb, qelem.
+  destruct (N.eqb_spec b BS) as [->|Hb]; [|destruct (N.eqb_spec b DQ) as [->|Hd]].
+  - reflexivity.
+  - reflexivity.
+  - cbn [app scan]. unfold pstep at 1. cbn [md]. rewrite (neq_eqb _ _ Hb), (neq_eqb _ _ Hd). reflexivity.
+Qed.
+
+Lemma scan_qbody : forall s tp sk rest,
+  scan (mkp MQuote tp sk) (flat_map escb s ++ rest) = scan (mkp MQuote (List.rev (map qelem s) ++ tp) sk) rest.
+Proof.
+  induction s as [|b s IH]; intros tp sk rest; [reflexivity|].
+  cbn [flat_map map List.rev]. rewrite <- !app_assoc, scan_qbyte, IH. reflexivity.
+Qed.
+
+Lemma scan_quoted : forall s tp sk rest,
+  scan (mkp MNorm tp sk) (quote s ++ rest)
+  = scan (mkp MNorm (List.rev (EB [DQ] :: map qelem s ++ [EB [DQ]]) ++ tp) sk) rest.
+Proof.
+  intros s tp sk rest. rewrite quote_escb. rewrite <- !app_assoc. cbn [app scan].
+  unfold pstep at 1. cbn [md N.eqb DQ Pos.eqb bind top stk]; unfold push; cbn [top stk].
+  rewrite scan_qbody. cbn [app scan]. unfold pstep at 1. cbn [md N.eqb DQ BS Pos.eqb bind top stk]; unfold push; cbn [top stk].
+  cbn [List.rev]. rewrite rev_app_distr. cbn [List.rev app]. rewrite <- !app_assoc. reflexivity.
+Qed.
+
+Lemma bytes_uint_bytes : forall u, bytes_uint (uint_bytes u) = Some u.
+Proof. induction u; cbn [uint_bytes bytes_uint]; try rewrite IHu; reflexivity. Qed.
+
+Lemma parse_dec_dec_N : forall n, parse_dec (dec_N n) = Some n.
+Proof.
+  intros n. unfold parse_dec. pose proof (dec_N_nonempty n) as Hne.
+  destruct (dec_N n) as [|b w] eqn:E; [contradiction|]. rewrite <- E. unfold dec_N.
+  rewrite bytes_uint_bytes. now rewrite DecimalN.Unsigned.of_to.
+Qed.
+
+Lemma scan_hdr : forall w ds tp sk rest, Forall (fun b => b <> RC) w ->
+  scan (mkp (MLitHdr ds) tp sk) (w ++ rest) = scan (mkp (MLitHdr (List.rev w ++ ds)) tp sk) rest.
+Proof.
+  induction w as [|c w IH]; intros ds tp sk rest H; [reflexivity|].
+  inversion H as [|? ? Hc Hw]; subst. cbn [app scan]. unfold pstep at 1. cbn [md]. rewrite (neq_eqb _ _ Hc).
+  cbn [bind top stk]. rewrite (IH _ _ _ _ Hw). cbn [List.rev]. now rewrite <- app_assoc.
+Qed.
+
+Lemma scan_body : forall s acc tp sk rest, s <> [] ->
+  scan (mkp (MLitBody (N.of_nat (length s)) acc) tp sk) (s ++ rest)
+  = scan (mkp MNorm (ELit (List.rev acc ++ s) :: tp) sk) rest.
+Proof.
+  induction s as [|c s IH]; intros acc tp sk rest Hne; [contradiction|].
+  cbn [app scan]. unfold pstep at 1. cbn [md]. destruct s as [|c' s'].
+  - cbn [length N.of_nat N.pred Pos.of_succ_nat Pos.pred_N N.eqb bind top stk List.rev]; unfold push; cbn [top stk]. reflexivity.
+  - assert (E : N.pred (N.of_nat (length (c :: c' :: s'))) = N.of_nat (length (c' :: s'))).
+    { cbn [length]. rewrite !Nat2N.inj_succ. now rewrite N.pred_succ. }
+    rewrite E. assert (E0 : (N.of_nat (length (c' :: s')) =? 0) = false).
+    { apply N.eqb_neq. cbn [length]. rewrite Nat2N.inj_succ. apply N.neq_succ_0. }
+    rewrite E0. cbn [bind top stk]. rewrite IH by discriminate. cbn [List.rev]. now rewrite <- app_assoc.
+Qed.
+
+Lemma needs_literal_nonempty : forall s, needs_literal s = true -> s <> [].
+Proof. intros s H ->. discriminate H. Qed.
+
+Lemma digit_not_rc : forall w, forallb digit w = true -> Forall (fun b => b <> RC) w.
+Proof.
+  intros w H. apply Forall_forall. intros x Hx. rewrite forallb_forall in H. specialize (H x Hx).
+  intros ->. discriminate H.
+Qed.
+
+Lemma scan_literal : forall s tp sk rest, needs_literal s = true ->
+  scan (mkp MNorm tp sk) (literal s ++ rest) = scan (mkp MNorm (ELit s :: tp) sk) rest.
+Proof.
+  intros s tp sk rest H. pose proof (needs_literal_nonempty s H) as Hne.
+  unfold literal. rewrite <- !app_assoc. cbn [app scan]. unfold pstep at 1. cbn [md N.eqb LC DQ Pos.eqb bind top stk].
+  rewrite scan_hdr by (apply digit_not_rc; apply uint_digits).
+  cbn [scan]. unfold pstep at 1. cbn [md N.eqb RC Pos.eqb]. rewrite app_nil_r, rev_involutive, parse_dec_dec_N.
+  cbn [bind top stk scan]. unfold pstep at 1. cbn [md bind top stk]. unfold pstep at 1. cbn [md bind].
+  unfold enter_body.
+  assert (E0 : (N.of_nat (length s) =? 0) = false).
+  { apply N.eqb_neq. destruct s; [contradiction|]. cbn [length]. rewrite Nat2N.inj_succ. apply N.neq_succ_0. }
+  rewrite E0. cbn [top stk]. rewrite (scan_body s [] tp sk rest Hne). reflexivity.
+Qed.
+
+Lemma rev_elems_join_cons : forall p q r,
+  elems_join (p :: q :: r) = p ++ EB [SP] :: elems_join (q :: r).
+Proof. reflexivity. Qed.
+
+Lemma scan_item : forall i tp sk rest,
+  scan (mkp MNorm tp sk) (piece i ++ rest) = scan (mkp MNorm (List.rev (elems_piece i) ++ tp) sk) rest.
+Proof.
+  induction i as [|z|s|l IH] using item_ind'; intros tp sk rest.
+  - cbn [piece elems_piece]. apply scan_chars. apply NIL_atomtext.
+  - cbn [piece elems_piece]. apply scan_chars. apply dec_Z_atomtext.
+  - cbn [piece elems_piece]. destruct (needs_literal s) eqn:E.
+    + rewrite (scan_literal s tp sk rest E). reflexivity.
+    + apply scan_quoted.
+  - assert (Hjoin : forall tp sk rest,
+              scan (mkp MNorm tp sk) (join_sp (map piece l) ++ rest)
+              = scan (mkp MNorm (List.rev (elems_join (map elems_piece l)) ++ tp) sk) rest).
+    { clear tp sk rest. induction l as [|x l IHl]; intros tp sk rest; [reflexivity|].
+      inversion IH as [|? ? Hx Hl]; subst. destruct l as [|y l].
+      - cbn [map join_sp elems_join]. apply Hx.
+      - change (join_sp (map piece (x :: y :: l))) with (piece x ++ SP :: join_sp (map piece (y :: l))).
+        change (elems_join (map elems_piece (x :: y :: l)))
+          with (elems_piece x ++ EB [SP] :: elems_join (map elems_piece (y :: l))).
+        rewrite <- app_assoc, Hx. cbn [app scan]. unfold pstep at 1. cbn [md N.eqb SP DQ LC LP LB RP RB Pos.eqb orb bind top stk]; unfold push; cbn [top stk].
+        rewrite (IHl Hl). rewrite rev_app_distr. cbn [List.rev]. rewrite <- !app_assoc. reflexivity. }
+    cbn [piece elems_piece]. rewrite <- !app_assoc. cbn [app scan]. unfold pstep at 1.
+    cbn [md N.eqb LP DQ LC Pos.eqb orb bind top stk]. rewrite Hjoin. cbn [scan]. unfold pstep at 1.
+    cbn [md N.eqb RP DQ LC LP LB Pos.eqb orb bind top stk]. rewrite app_nil_r, rev_involutive. reflexivity.
+Qed.
+
+Lemma scan_all_collapse : forall x, scan_all (collapse x) = Ok (elems_join (map elems_piece x)).
+Proof.
+  intros x. unfold scan_all, collapse.
+  assert (Hjoin : forall l tp sk rest,
+            scan (mkp MNorm tp sk) (join_sp (map piece l) ++ rest)
+            = scan (mkp MNorm (List.rev (elems_join (map elems_piece l)) ++ tp) sk) rest).
+  { induction l as [|i l IHl]; intros tp sk rest; [reflexivity|]. destruct l as [|y l].
+    - cbn [map join_sp elems_join]. apply scan_item.
+    - change (join_sp (map piece (i :: y :: l))) with (piece i ++ SP :: join_sp (map piece (y :: l))).
+      change (elems_join (map elems_piece (i :: y :: l)))
+        with (elems_piece i ++ EB [SP] :: elems_join (map elems_piece (y :: l))).
+      rewrite <- app_assoc, scan_item. cbn [app scan]. unfold pstep at 1.
+      cbn [md N.eqb SP DQ LC LP LB RP RB Pos.eqb orb bind top stk]; unfold push; cbn [top stk].
+      rewrite IHl. rewrite rev_app_distr. cbn [List.rev]. rewrite <- !app_assoc. reflexivity. }
+  rewrite <- (app_nil_r (join_sp (map piece x))), Hjoin. cbn [scan bind finish md stk top].
+  rewrite app_nil_r, rev_involutive. reflexivity.
+Qed.
+
+(** ---- the round trip for every nested structure under the exact guard ---- *)
+Lemma nested_roundtrip : forall x, Forall wf_item x -> parse (collapse x) = Ok (map norm x).
+Proof.
+  intros x H. unfold parse. rewrite scan_all_collapse. cbn [bind]. now apply collapse_strings_nested.
+Qed.
+
+Lemma wf_item_unfold : forall l : list item,
+  (wf_item (IList l) <-> Forall wf_item l)
+  /\ (forall s, wf_item (IStr s) <-> (needs_literal s = true \/ Forall (fun b => b <> BS) s))
+  /\ wf_item INil /\ (forall z, wf_item (IInt z)).
+Proof.
+  intros l. split; [apply wf_item_list|]. split; [intros s; reflexivity|]. split; [exact I|intros z; exact I].
+Qed.
+
+(** the guard is inhabited by a hostile nested structure (backslashes only inside literals) *)
+Example hostile_nested :
+  Forall wf_item [INil; IInt (-7); IStr NIL; IList [IStr []; IList [IStr [40; 34]]; IList []];
+                  IStr [97; 10; 92; 98]; IList [IStr [123; 51; 125]; IStr [13; 10; 32]]; IStr [92; 10; 32]].
+Proof.
+  assert (Q : forall s, forallb (fun b => negb (b =? BS)) s = true -> wf_item (IStr s)).
+  { intros s H. right. apply Forall_forall. intros x Hx. rewrite forallb_forall in H. specialize (H x Hx).
+    apply negb_true_iff in H. now apply N.eqb_neq. }
+  assert (L : forall s, needs_literal s = true -> wf_item (IStr s)) by (intros s H; left; exact H).
+  constructor; [exact I|]. constructor; [exact I|]. constructor; [apply Q; reflexivity|].
+  constructor.
+  { apply wf_item_list. constructor; [apply Q; reflexivity|]. constructor.
+    - apply wf_item_list. constructor; [apply Q; reflexivity|constructor].
+    - constructor; [apply wf_item_list; constructor|constructor]. }
+  constructor; [apply L; reflexivity|]. constructor.
+  { apply wf_item_list. constructor; [apply Q; reflexivity|]. constructor; [apply L; reflexivity|constructor]. }
+  constructor; [apply L; reflexivity|constructor].
+Qed.
